@@ -6,9 +6,10 @@ import worldhist as WH
 import worldgen as W
 import radlib as R
 ID = "C19"
-LEAN_TARGETS = ["Rsp.Props.C19", "Rsp.Props.C17"]
+LEAN_TARGETS = ["Rsp.Props.C19", "Rsp.Props.C17", "Rsp.Props.C17Radsrv", "Rsp.Props.C17Replyh"]
 THEOREMS = ["Rsp.Props.C19.exit_releases_reader_reference", "Rsp.Props.C19.rmclientrq_clears_cache", "Rsp.Props.C19.rmclientrq_other_ids",
-            "Rsp.Props.C17.freerq_last", "Rsp.Props.C17.freerq_keeps", "Rsp.Props.C17.freerq_other"]
+            "Rsp.Props.C17.freerq_last", "Rsp.Props.C17.freerq_keeps", "Rsp.Props.C17.freerq_other",
+            "Rsp.Props.C17.run_exit", "Rsp.Props.C17.run_rmexit", "Rsp.Props.C17.radsrv_inv", "Rsp.Props.C17.replyh_inv"]
 RULE = ("representative exchanges (plain request, request through rewrites/User-Name rewrite/AddTTL, request with User-Password+CHAP+EAP, local reject and accounting response, "
         "duplicate replay, Status-Server, plain reply, reply with Tunnel-Password/MS-MPPE/rewrites/User-Name restore, clientwr pass, UDP datagram through the real listener) "
         "on generated configurations; the target operation is repeated in a fresh process for EVERY n with the n-th allocation of the program failing; afterwards queues are "
@@ -17,7 +18,8 @@ EXHAUSTIVE = {"quick": ["every allocation ordinal n of each generated (exchange,
 ASSUMPTIONS = ["allocation sites = malloc/calloc/realloc/strdup calls made by the project's own source files (library-internal allocations of OpenSSL/nettle/libc are not failed)",
                "the reader side of TCP/TLS is emulated by the harness (newrequest failure handled as the readers do); the UDP reader is the real thread"]
 LEVEL_TEXT = ("PARTIAL. Lean 4 theorems cover the clean-drop exits of the model (the reader's reference is released exactly once: exit_releases_reader_reference; the duplicate-cache "
-              "entry is cleared without touching other identifiers: rmclientrq_clears_cache, rmclientrq_other_ids). The quantifier of the property itself (every allocation site, every n) "
+              "entry is cleared without touching other identifiers: rmclientrq_clears_cache, rmclientrq_other_ids; and from ANY point of radsrv's stages the two drop exits — the ones every "
+              "allocation-failure branch of the code jumps to — leave every count equal to its holders: run_exit, run_rmexit, with radsrv_inv / replyh_inv for all the other ways out). The quantifier of the property itself (every allocation site, every n) "
               "is discharged by exhaustive fault injection into the real code, judged by the Lean monitor: no sanitizer report, deliberate exit only with non-zero status, emitted packets "
               "well-formed and authentic, reference counts equal holders, nothing retained after clean-up.")
 LEVEL_NOTE = ("The allocation-failure behaviour is NOT modelled in Lean (the World model has no failing allocator); the outcome is checked on the implementation only. Trusted: harness "
